@@ -154,6 +154,9 @@ def _structure(
             nodes[sig] = res_node
             all_refs[fis_.store_path] = sig
             sub_set.update([n.node_hash for n in sub_nodes])
+            # The same node can be reached several times (a helper called twice): keep what is
+            # already known about its dependencies instead of starting from scratch.
+            sub_set.update(node_deps.get(res_node.node_hash, ()))
             node_deps[res_node.node_hash] = sub_set
             for sub_n in sub_nodes:
                 k = (sub_n.node_hash, res_node.node_hash)
